@@ -229,16 +229,37 @@ type ReadOptions struct {
 	SmallValueThreshold int
 }
 
+// ErrValueKeyMismatch reports that the record a value pointer leads to was written for another
+// key: the pointer is stale (recovery truncated the segment at a damaged record and later writes
+// took its place), and the bytes there must not be served as this key's value.
+var ErrValueKeyMismatch = stderrors.New("vlog: value pointer leads to the record of another key")
+
 // ReadValue decodes the value payload and optionally copies it based on the read mode.
 func (m *Manager) ReadValue(ptr *kv.ValuePtr, opt ReadOptions) ([]byte, func(), error) {
+	return m.ReadValueOf(nil, ptr, opt)
+}
+
+// ReadValueOf is ReadValue for a reader that knows the internal key the pointer was stored
+// under: the record must have been written for the same key (any version of it).
+func (m *Manager) ReadValueOf(key []byte, ptr *kv.ValuePtr, opt ReadOptions) ([]byte, func(), error) {
 	raw, unlock, err := m.Read(ptr)
 	if err != nil {
 		return nil, unlock, err
 	}
-	val, _, err := kv.DecodeValueSlice(raw)
+	val, header, err := kv.DecodeValueSlice(raw)
 	if err != nil {
 		unlock()
 		return nil, nil, err
+	}
+	if len(key) > 0 {
+		// The record is header|key|value|crc and has just been verified as a whole.
+		var h kv.EntryHeader
+		keyStart, herr := h.Decode(raw)
+		keyEnd := keyStart + int(header.KeyLen)
+		if herr != nil || keyEnd > len(raw) || !kv.SameKey(raw[keyStart:keyEnd], key) {
+			unlock()
+			return nil, nil, ErrValueKeyMismatch
+		}
 	}
 	switch opt.Mode {
 	case ReadModeCopy:
